@@ -24,6 +24,20 @@ import (
 //   rel:<id>   p sends PUBREL <id>                                            (id held)
 //   drop       p's network connection drops       rc   p reconnects, clean start 0
 //   other      o publishes an unrelated QoS 1 message on t
+//   pack       (arg "pack=1", needs pq) p acknowledges every delivery it holds (see below)
+// Publisher that is a subscriber at once (arg "pq=1|2"): p itself subscribes to t at QoS pq,
+// so the broker delivers QoS 1/2 messages (p's own and o's) to p while p's inbound QoS 2
+// exchanges are open: outbound packet identifiers are allocated for p's session while
+// identifiers of p's own exchanges are held (both directions share the in-flight store).
+// p acknowledges every delivery promptly (same step; PUBACK, PUBREC + PUBCOMP) or, with
+// pack=1, only when the op pack is issued (deliveries stay unacknowledged across p's own
+// retransmissions, PUBREL and reconnects). p never STARTS an exchange with an identifier
+// of a delivery it has not yet acknowledged (client-initiated collisions are C10's
+// subject: c10:inbound-qos2-state-deleted-by:outbound-ack-same-id); whether the BROKER
+// assigns an identifier p's open exchange is using is up to the broker (independent
+// identifier spaces) and must not disturb the exchange: keys ...:held-id-assigned-to-outbound-delivery.
+// The copies p receives as a subscriber are counted like those of s (a PUBLISH with DUP 1
+// whose identifier and message p already holds unacknowledged is a retransmission).
 //   hk         (arg "hk=N" pool, "tick=S" seconds, default 2) the virtual clock advances by
 //              S seconds and the broker's periodic housekeeping (event loop: expired
 //              clients, retained, delayed wills, expired in-flight records) runs once, with
@@ -47,6 +61,12 @@ type c08Model struct {
 	others    int
 	connected bool
 	done      int
+	// p as a subscriber (pq>0)
+	pfwd    map[string]int    // tag -> copies received by p
+	pun     map[uint16]string // deliveries to p not yet acknowledged by it: packet id -> tag
+	pend    []ref.Packet      // ... received on the current connection (what op pack acknowledges)
+	over    map[uint16]bool   // the broker used the held id for an outbound delivery to p during the exchange
+	lastOut uint16            // id of the last first transmission to p on this connection
 }
 
 func (m *c08Model) String() string {
@@ -60,7 +80,24 @@ func (m *c08Model) String() string {
 		fs = append(fs, fmt.Sprintf("%s=%d", t, n))
 	}
 	sort.Strings(fs)
-	return fmt.Sprintf("held%v fwd%v e%d tx%d c%d o%d hk%d conn=%v", hs, fs, m.exch, m.tx, m.conns, m.others, m.hks, m.connected)
+	base := fmt.Sprintf("held%v fwd%v e%d tx%d c%d o%d hk%d conn=%v", hs, fs, m.exch, m.tx, m.conns, m.others, m.hks, m.connected)
+	if m.pfwd == nil {
+		return base
+	}
+	var ps, us, ovs []string
+	for t, n := range m.pfwd {
+		ps = append(ps, fmt.Sprintf("%s=%d", t, n))
+	}
+	for id, t := range m.pun {
+		us = append(us, fmt.Sprintf("%d=%s", id, t))
+	}
+	for id := range m.over {
+		ovs = append(ovs, fmt.Sprint(id))
+	}
+	sort.Strings(ps)
+	sort.Strings(us)
+	sort.Strings(ovs)
+	return base + fmt.Sprintf(" pfwd%v pun%v pend%d over%v", ps, us, len(m.pend), ovs)
 }
 
 func argInt(arg, name string, def int) int {
@@ -104,6 +141,8 @@ func c08Run(arg string) explore.HistFn {
 	maxRc := argInt(arg, "rc", 2)
 	maxHk := argInt(arg, "hk", 0)
 	tickS := argInt(arg, "tick", 2)
+	pq := byte(argInt(arg, "pq", 0))
+	packOp := argInt(arg, "pack", 0) == 1 && pq > 0
 	return func(hist []string) explore.HistResult {
 		h := newH(world.Config{})
 		cnt := map[string]int{}
@@ -123,6 +162,65 @@ func c08Run(arg string) explore.HistFn {
 		h.connect("s", world.ConnectPacket("s", 4, true))
 		h.connect("o", world.ConnectPacket("o", 4, true))
 		h.do("s", ref.Packet{Type: ref.SUBSCRIBE, PacketID: 900, Filters: []ref.Filter{{Filter: "t", Opts: sq}}})
+		if pq > 0 {
+			m.pfwd, m.pun, m.over = map[string]int{}, map[uint16]string{}, map[uint16]bool{}
+			h.do("p", ref.Packet{Type: ref.SUBSCRIBE, PacketID: 901, Filters: []ref.Filter{{Filter: "t", Opts: pq}}})
+		}
+		// overSfx: the exchange's identifier was (also) given to an outbound delivery to p
+		overSfx := func(id uint16) string {
+			if m.over[id] {
+				return ":held-id-assigned-to-outbound-delivery"
+			}
+			return ""
+		}
+		// ackP: p acknowledges the deliveries it holds on this connection
+		ackP := func() {
+			if len(m.pend) == 0 {
+				return
+			}
+			pend := m.pend
+			m.pend = nil
+			autoAck(h, "p", pend)
+			for _, d := range pend {
+				delete(m.pun, d.PacketID)
+			}
+		}
+		// recvP: what p received during the step, as a subscriber
+		recvP := func(pks []ref.Packet, shape string) {
+			if pq == 0 {
+				return
+			}
+			for _, d := range pks {
+				if d.Type != ref.PUBLISH || d.Qos == 0 {
+					continue
+				}
+				tag := string(d.Payload)
+				if !(d.Dup && m.pun[d.PacketID] == tag) {
+					m.pfwd[tag]++
+					if strings.HasPrefix(tag, "m") && m.pfwd[tag] > 1 {
+						h.violate("c08:forwarded-twice:"+shape, "the publisher itself (subscribed to t) received %d copies of its QoS 2 publish %s after %s", m.pfwd[tag], tag, shape)
+					}
+					if len(m.held) > 0 {
+						count("deliveries_to_publisher_while_exchange_in_progress")
+					}
+					for id := range m.held {
+						if m.lastOut < id && id < d.PacketID {
+							count("outbound_id_allocated_past_held_id")
+						}
+					}
+					m.lastOut = d.PacketID
+				}
+				m.pun[d.PacketID] = tag
+				if _, ok := m.held[d.PacketID]; ok {
+					m.over[d.PacketID] = true
+					count("outbound_delivery_carrying_held_id")
+				}
+				m.pend = append(m.pend, d)
+			}
+			if !packOp {
+				ackP()
+			}
+		}
 
 		// collect what s received during the step; returns per-tag increments
 		collect := func(shape string) {
@@ -190,7 +288,17 @@ func c08Run(arg string) explore.HistFn {
 					// the held state must outlive housekeeping that runs long before any expiry
 					shape += ":after-housekeeping"
 				}
+				if f[0] == "dup" {
+					shape += overSfx(id)
+					if pq > 0 {
+						count("dup_retransmissions_by_subscribed_publisher")
+					}
+					if len(m.pun) > 0 {
+						count("dup_retransmissions_while_delivery_unacknowledged")
+					}
+				}
 				collect(shape)
+				recvP(got, shape)
 			case "rel":
 				tag := m.held[id]
 				got := h.do("p", ref.Packet{Type: ref.PUBREL, PacketID: id})
@@ -201,11 +309,13 @@ func c08Run(arg string) explore.HistFn {
 					}
 				}
 				collect("pubrel")
+				recvP(got, "pubrel")
 				sfx := ""
 				if m.swept[id] {
 					sfx = ":after-housekeeping"
 					count("pubrel_after_housekeeping")
 				}
+				sfx += overSfx(id)
 				switch {
 				case comp == nil:
 					h.violate("c08:no-pubcomp"+sfx, "PUBREL id %d (tag %s) not answered with PUBCOMP: %v", id, tag, got)
@@ -213,17 +323,23 @@ func c08Run(arg string) explore.HistFn {
 					h.violate("c08:pubcomp>=0x80:exchange-in-progress"+sfx, "PUBREL id %d for the exchange in progress (tag %s) answered with PUBCOMP reason %#x", id, tag, comp.ReasonCode)
 				}
 				if comp != nil && m.fwd[tag] != 1 {
-					h.violate("c08:not-forwarded-once-at-pubcomp", "exchange %s completed (PUBCOMP) but subscriber holds %d copies", tag, m.fwd[tag])
+					h.violate("c08:not-forwarded-once-at-pubcomp"+overSfx(id), "exchange %s completed (PUBCOMP) but subscriber holds %d copies", tag, m.fwd[tag])
+				}
+				if comp != nil && pq > 0 && m.pfwd[tag] != 1 {
+					h.violate("c08:not-forwarded-once-at-pubcomp"+overSfx(id), "exchange %s completed (PUBCOMP) but the publisher itself (subscribed to t, connected) holds %d copies", tag, m.pfwd[tag])
 				}
 				delete(m.held, id)
 				delete(m.reconn, id)
 				delete(m.swept, id)
+				delete(m.over, id)
 				m.done++
 				count("exchanges_completed")
 			case "drop":
 				h.Cl["p"].Drop()
 				h.logf("p: dropped")
 				m.connected = false
+				m.pend = nil
+				m.lastOut = 0
 				collect("drop")
 			case "rc":
 				m.conns++
@@ -239,11 +355,16 @@ func c08Run(arg string) explore.HistFn {
 					m.held = map[uint16]string{}
 					m.reconn = map[uint16]bool{}
 					m.swept = map[uint16]bool{}
+					if pq > 0 {
+						m.pun, m.over = map[uint16]string{}, map[uint16]bool{}
+						h.do("p", ref.Packet{Type: ref.SUBSCRIBE, PacketID: 901, Filters: []ref.Filter{{Filter: "t", Opts: pq}}})
+					}
 				}
 				for id := range m.held {
 					m.reconn[id] = true
 				}
 				collect("reconnect")
+				recvP(got[1:], "reconnect")
 			case "hk":
 				m.hks++
 				for id := range m.held {
@@ -255,17 +376,26 @@ func c08Run(arg string) explore.HistFn {
 				h.W.Tick(int64(tickS) * 1000)
 				h.W.Housekeep()
 				h.logf("clock +%ds, housekeeping at %d", tickS, h.W.Now())
+				var pgot []ref.Packet
 				if m.connected {
-					got := h.poll("p")
+					pgot = h.poll("p")
 					if h.Cl["p"].Closed() {
-						h.violate("c08:connection-closed:housekeeping", "broker closed p's connection during housekeeping %d s later: %v", tickS, got)
+						h.violate("c08:connection-closed:housekeeping", "broker closed p's connection during housekeeping %d s later: %v", tickS, pgot)
 					}
 				}
 				collect("housekeeping")
+				recvP(pgot, "housekeeping")
 			case "other":
 				m.others++
 				h.do("o", pub("t", fmt.Sprintf("o%d", m.others), 1, 77))
 				collect("unrelated-publish")
+				if m.connected {
+					recvP(h.poll("p"), "unrelated-publish")
+				}
+			case "pack":
+				count("deferred_acknowledgements_by_publisher")
+				ackP()
+				collect("publisher-acknowledges-deliveries")
 			}
 		})
 		var next []string
@@ -276,9 +406,12 @@ func c08Run(arg string) explore.HistFn {
 						next = append(next, fmt.Sprintf("dup:%d", id))
 					}
 					next = append(next, fmt.Sprintf("rel:%d", id))
-				} else if m.tx < maxTx {
+				} else if _, out := m.pun[id]; m.tx < maxTx && !out {
 					next = append(next, fmt.Sprintf("pub:%d", id))
 				}
+			}
+			if packOp && len(m.pend) > 0 {
+				next = append(next, "pack")
 			}
 			if m.conns < maxRc {
 				next = append(next, "drop")
@@ -306,9 +439,13 @@ func init() {
 		c.Rep.Assumption("one client action at a time, broker run to quiescence under the deterministic default schedule (sequential histories)")
 		c.Rep.Assumption("state = reflective dump of *Server plus reference-model state and pool counters; histories merged only if byte-identical")
 		c.Rep.Assumption("housekeeping ops advance the virtual clock by at most 2x3600 s in total: far below the default MaximumMessageExpiryInterval (86400 s) and the session expiry, so the reference model treats them as no-ops")
+		c.Rep.Assumption("a publisher that is also a subscriber never starts an exchange with the packet identifier of a delivery it has not yet acknowledged (client-initiated identifier collisions are C10's subject); identifiers the broker chooses are unconstrained")
 		c.Rep.Assumption("forwarding may happen at PUBLISH or at PUBREL (unspecified); exactly one copy is required once PUBCOMP was received, more than one copy is never allowed")
 		var sts []*explore.BFSStats
 		if c.Quick() {
+			// publisher that is also a subscriber: small spaces, first (the budgets add up to more than the tier's deadline on a loaded machine)
+			sts = append(sts, explore.RunBFS(c, "c08", "v=5,sq=0,pq=1,ids=2,tx=4,rc=1", 0, 15*time.Second))
+			sts = append(sts, explore.RunBFS(c, "c08", "v=4,sq=0,pq=2,pack=1,ids=2,tx=3,rc=1", 0, 15*time.Second))
 			sts = append(sts, explore.RunBFS(c, "c08", "v=5,sq=0,ids=1,tx=5,rc=2", 0, 25*time.Second))
 			sts = append(sts, explore.RunBFS(c, "c08", "v=4,sq=2,ids=1,tx=5,rc=2", 0, 20*time.Second))
 			sts = append(sts, explore.RunBFS(c, "c08", "v=5,sq=2,ids=2,tx=5,rc=2", 0, 25*time.Second))
@@ -321,9 +458,16 @@ func init() {
 			sts = append(sts, explore.RunBFS(c, "c08", "v=3,sq=0,ids=2,tx=5,rc=2", 0, 2*time.Minute))
 			sts = append(sts, explore.RunBFS(c, "c08", "v=5,sq=0,ids=1,tx=4,rc=2,hk=2", 0, 2*time.Minute))
 			sts = append(sts, explore.RunBFS(c, "c08", "v=4,sq=2,ids=2,tx=4,rc=1,hk=2,tick=3600", 0, 2*time.Minute))
+			sts = append(sts, explore.RunBFS(c, "c08", "v=5,sq=2,pq=2,ids=2,tx=5,rc=2", 0, 2*time.Minute))
+			sts = append(sts, explore.RunBFS(c, "c08", "v=5,sq=0,pq=1,pack=1,ids=3,tx=5,rc=2", 0, 2*time.Minute))
+			sts = append(sts, explore.RunBFS(c, "c08", "v=4,sq=0,pq=2,pack=1,ids=2,tx=4,rc=1,hk=1", 0, 2*time.Minute))
 		}
 		var dups, dupsRc, dupsHk int64
+		self := map[string]int64{}
 		for _, st := range sts {
+			for _, k := range []string{"deliveries_to_publisher_while_exchange_in_progress", "outbound_id_allocated_past_held_id", "outbound_delivery_carrying_held_id", "dup_retransmissions_by_subscribed_publisher", "dup_retransmissions_while_delivery_unacknowledged", "deferred_acknowledgements_by_publisher"} {
+				self[k] += st.Counters[k]
+			}
 			dups += st.Counters["dup_retransmissions"]
 			dupsRc += st.Counters["dup_retransmissions_after_reconnect"]
 			dupsHk += st.Counters["dup_retransmissions_after_housekeeping"]
@@ -336,6 +480,14 @@ func init() {
 		c.Rep.Count("dup_retransmissions_after_housekeeping", dupsHk)
 		if (dups == 0 || dupsRc == 0) && os.Getenv("VERIF_SCEN") == "" {
 			c.Rep.Add(explore.Violation{Key: "internal:vacuous", Msg: "no DUP retransmission (or none after a reconnect) was exercised"})
+		}
+		for k, v := range self {
+			c.Rep.Count(k, v)
+		}
+		for _, k := range []string{"outbound_id_allocated_past_held_id", "dup_retransmissions_by_subscribed_publisher", "dup_retransmissions_while_delivery_unacknowledged"} {
+			if self[k] == 0 && os.Getenv("VERIF_SCEN") == "" {
+				c.Rep.Add(explore.Violation{Key: "internal:vacuous:" + k, Msg: "the scenarios with a publisher that is also a subscriber never produced the case '" + k + "'"})
+			}
 		}
 		if dupsHk == 0 && os.Getenv("VERIF_SCEN") == "" {
 			c.Rep.Add(explore.Violation{Key: "internal:vacuous:housekeeping", Msg: "no DUP retransmission after a housekeeping run was exercised"})
